@@ -63,12 +63,19 @@ def run_hist(seed, n):
                 return cb
 
             counter = 0
+            fns = []      # (number, callable, raises): one callable may be registered several times, with different filters
+            base = {"k": 0, "dst": 0, "outgoing": 0, "fns": [], "devices": 0, "sendfail": 0, "all": 0, "den": [], "out": 0, "raises": 0, "fn": 0}
             for _ in range(n):
                 r = rnd.random()
                 if r < 0.3 and len(regs) < 5:
                     counter += 1
                     mode = rnd.choice(["all", "filters", "addresses", "both", "empty"])
-                    raises = rnd.random() < 0.3
+                    if fns and rnd.random() < 0.3:
+                        fnum, fn, raises = rnd.choice(fns)
+                    else:
+                        raises = rnd.random() < 0.3
+                        fnum, fn = counter, mk(counter, raises)
+                        fns.append((fnum, fn, raises))
                     out = rnd.random() < 0.5
                     den, fl, gl = set(), None, None
                     if mode in ("filters", "both"):
@@ -82,16 +89,24 @@ def run_hist(seed, n):
                         den |= set(gs)
                     if mode == "empty":
                         fl, gl = [], []
-                    obj = tq.register_telegram_received_cb(mk(counter, raises), address_filters=fl, group_addresses=gl,
-                                                           match_for_outgoing=out)
-                    ids[id(obj)] = counter
+                    obj = tq.register_telegram_received_cb(fn, address_filters=fl, group_addresses=gl, match_for_outgoing=out)
                     regs.append(obj)
-                    ev.append({"ev": "reg", "all": 1 if mode == "all" else 0, "den": sorted(den), "out": int(out), "raises": int(raises),
-                               "k": 0, "dst": 0, "outgoing": 0, "called": [], "devices": 0, "num": counter, "sendfail": 0})
+                    ev.append(dict(base, ev="reg", all=1 if mode == "all" else 0, den=sorted(den), out=int(out), raises=int(raises), fn=fnum))
                 elif r < 0.4 and regs:
                     k = rnd.randrange(len(regs))
                     tq.unregister_telegram_received_cb(regs.pop(k))
-                    ev.append({"ev": "unreg", "k": k + 1, "all": 0, "den": [], "out": 0, "raises": 0, "dst": 0, "outgoing": 0, "called": [], "devices": 0, "sendfail": 0})
+                    ev.append(dict(base, ev="unreg", k=k + 1))
+                elif r < 0.48 and regs:
+                    # the handle's lists are edited in place (the documented way to change a subscription): this registration only
+                    k = rnd.randrange(len(regs))
+                    if rnd.random() < 0.5:
+                        f, d_ = rnd.choice(FILTERS)
+                        regs[k].address_filters.append(AddressFilter(f))
+                    else:
+                        g = rnd.randrange(1, len(ADDR))
+                        regs[k].group_addresses.append(parse_device_group_address(ADDR[g]))
+                        d_ = [g]
+                    ev.append(dict(base, ev="edit", k=k + 1, den=sorted(d_)))
                 else:
                     d = rnd.randrange(len(ADDR))
                     outgoing = rnd.random() < 0.4 and d != 0
@@ -104,9 +119,8 @@ def run_hist(seed, n):
                                   direction=TelegramDirection.OUTGOING if outgoing else TelegramDirection.INCOMING)
                     xknx.telegrams.put_nowait(tg)
                     await asyncio.wait_for(xknx.telegrams.join(), 30)
-                    pos = [next(i for i, o in enumerate(regs) if ids[id(o)] == c) + 1 if any(ids[id(o)] == c for o in regs) else 99 for c in called]
-                    ev.append({"ev": "tg", "dst": d, "outgoing": int(outgoing), "called": pos, "devices": 1 if (dev or (d == 0 and not sendfail)) else 0,
-                               "k": 0, "all": 0, "den": [], "out": 0, "raises": 0, "sendfail": sendfail})
+                    ev.append(dict(base, ev="tg", dst=d, outgoing=int(outgoing), fns=list(called), devices=1 if (dev or (d == 0 and not sendfail)) else 0,
+                                   sendfail=sendfail))
             await stop_xknx(xknx)
 
         loop.run_until_complete(main())
@@ -133,12 +147,12 @@ def run(ck):
         if i in res.bad:
             continue
         for k, e in enumerate(t["ev"]):
-            if e["ev"] == "tg" and len(e["called"]) >= 1:
+            if e["ev"] == "tg" and len(e["fns"]) >= 1:
                 a = {"ev": [dict(x) for x in t["ev"]]}
-                a["ev"][k]["called"] = e["called"][:-1]
+                a["ev"][k]["fns"] = e["fns"][:-1]
                 muts.append(a)
                 b = {"ev": [dict(x) for x in t["ev"]]}
-                b["ev"][k]["called"] = e["called"] + [e["called"][-1]]
+                b["ev"][k]["fns"] = e["fns"] + [e["fns"][-1]]
                 muts.append(b)
                 break
     r2 = tlc.batch(ck, "core/Callbacks_Trace", muts)
@@ -146,7 +160,9 @@ def run(ck):
         raise MachineryError(f"binding self-test: {len(muts) - len(r2.bad)} of {len(muts)} corrupted traces accepted")
     tg = [e for t in traces for e in t["ev"] if e["ev"] == "tg"]
     ck.add(traces_validated_against_impl=res.accepted, trace_events=sum(len(t["ev"]) for t in traces), telegrams=len(tg),
-           telegrams_with_several_callbacks=sum(1 for e in tg if len(e["called"]) >= 2),
+           telegrams_with_several_callbacks=sum(1 for e in tg if len(e["fns"]) >= 2),
+           edits=sum(1 for t in traces for e in t["ev"] if e["ev"] == "edit"),
+           callables_registered_twice=sum(1 for t in traces if len({e["fn"] for e in t["ev"] if e["ev"] == "reg"}) < sum(1 for e in t["ev"] if e["ev"] == "reg")),
            raising_callbacks_registered=sum(1 for t in traces for e in t["ev"] if e["ev"] == "reg" and e["raises"]),
            selftest_corrupted_rejected=len(muts))
     ck.sample({"ev": traces[0]["ev"][:12]})
